@@ -119,8 +119,11 @@ def run(ctx):
         lits = [(c, l) for (c, l) in rx.regex_literals(facts, r".")
                 if c.body.id in prod and not re.search(r"extract_reference", c.body.id) and (l is None or "ref: " not in l)]
     if ctx.check(len(lits) == 1 and lits[0][1] is not None, "C14-R1", "anchor|comment-regex", "comment regex literal found (%s)" % [l for _, l in lits], ""):
-        e = rx.equiv("(?s-u:.)*(?:%s)" % lits[0][1], "(?s-u:.)*(?:%s)" % COMMENT_SPEC)
+        e = rx.equiv("(?s:.)*?(?:%s)" % lits[0][1], "(?s:.)*?(?:%s)" % COMMENT_SPEC)
         e2 = rx.equiv(lits[0][1], COMMENT_SPEC)
+        ctx.check(e.get("ok") and e.get("holds"), "C14-R1", "comment-regex-search",
+                  "the comment regex finds the same comments wherever they stand on the line (searched, not anchored: %r vs %r%s)" % (
+                      lits[0][1], COMMENT_SPEC, "" if e.get("holds") else "; differs on %r" % e.get("witness", e.get("error"))), lits[0][0].where())
         ctx.check(e2.get("ok") and e2.get("holds"), "C14-R1", "comment-regex",
                   "comment regex %r ≡ %r%s" % (lits[0][1], COMMENT_SPEC, "" if e2.get("holds") else " (differs on %r)" % e2.get("witness", e2.get("error"))), lits[0][0].where())
         i = rx.info(lits[0][1])
